@@ -8,11 +8,11 @@ Open Scope nat_scope.
 
 (* sel = s[0:1]; sel.lattice = Lattice()  : atom 0 is held by s and by sel *)
 Definition d10_selection : list op :=
-  [NewStruct; AddNewAtom 0 1%Z; AddNewAtom 0 2%Z; GetSlice 0 (mkSlice (Some 0%Z) (Some 1%Z) None); SetLattice 1 LatNew false].
+  [NewStruct; AddNewAtom 0 (lab 1); AddNewAtom 0 (lab 2); GetSlice 0 (mkSlice (Some 0%Z) (Some 1%Z) None); SetLattice 1 LatNew false].
 
 (* t = Structure(list(s)) : the constructor takes the very atoms of s and re-points them *)
 Definition d10_constructor : list op :=
-  [NewStruct; AddNewAtom 0 1%Z; AddNewAtom 0 2%Z; Tolist 0; Construct 1 None].
+  [NewStruct; AddNewAtom 0 (lab 1); AddNewAtom 0 (lab 2); Tolist 0; Construct 1 None].
 
 Lemma not_lat_ok_witness : forall w h its L a l,
   nth_error (objs w) h = Some (OStruct its L) -> In a its -> lat_of w a = Some l -> l <> L -> ~ lat_ok w.
@@ -38,7 +38,7 @@ Proof. exists d10_selection, empty_world. destruct lattice_inv_refuted_selection
 
 (* the guard is not vacuous: a history with selections, copies and edits that keeps it *)
 Definition guarded_example : list op :=
-  [NewStruct; AddNewAtom 0 1%Z; AddNewAtom 0 2%Z; AddNewAtom 0 3%Z; GetSlice 0 (mkSlice (Some 1%Z) None None);
+  [NewStruct; AddNewAtom 0 (lab 1); AddNewAtom 0 (lab 2); AddNewAtom 0 (lab 3); GetSlice 0 (mkSlice (Some 1%Z) None None);
    Add 0 1; SetLattice 2 LatNew false; Extend 2 0 CNone; SetSlice 2 (mkSlice None None (Some 2%Z)) 1 true;
    Pickle 2 true; IAdd 0 0; Sub 0 1].
 
@@ -69,7 +69,7 @@ Qed.
 
 Lemma iadd_self_refuted : exists w h, forall fuel, snd (step (pinned fuel) (IAdd h h) w) = Diverges.
 Proof.
-  exists (run current [NewStruct; AddNewAtom 0 1%Z] empty_world), 0. intros.
+  exists (run current [NewStruct; AddNewAtom 0 (lab 1)] empty_world), 0. intros.
   eapply iadd_self_diverges_pinned with (old := [0]) (L := 0); [vm_compute; reflexivity|discriminate].
 Qed.
 
@@ -85,7 +85,7 @@ Qed.
 
 (* ---------------------------------------------------------------- D9: the pinned pickle *)
 
-Definition d9_history : list op := [NewStruct; AddNewAtom 0 1%Z; AddNewAtom 0 2%Z; Pickle 0 true].
+Definition d9_history : list op := [NewStruct; AddNewAtom 0 (lab 1); AddNewAtom 0 (lab 2); Pickle 0 true].
 
 Lemma pickle_refuted :
   let w := run (pinned 0) d9_history empty_world in
@@ -99,7 +99,7 @@ Proof. vm_compute. auto. Qed.
 
 (* ---------------------------------------------------------------- the hypotheses of the copy / selection theorems are satisfiable *)
 
-Definition three_atoms : world := run current [NewStruct; AddNewAtom 0 1%Z; AddNewAtom 0 2%Z; AddNewAtom 0 3%Z] empty_world.
+Definition three_atoms : world := run current [NewStruct; AddNewAtom 0 (lab 1); AddNewAtom 0 (lab 2); AddNewAtom 0 (lab 3)] empty_world.
 
 Lemma three_atoms_Inv : Inv three_atoms.
 Proof. apply run_Inv. apply empty_Inv. Qed.
